@@ -60,6 +60,7 @@ CONSTANTS
   MailCount <- C_MailCount
   Defects <- C_Defects
   Bytecode <- C_Bytecode
+  Buffered <- C_Buffered
   OpsBound <- C_OpsBound
 INVARIANT Contained
 INVARIANT OwnClass
@@ -171,7 +172,9 @@ def main(chk, replay=None):
                                "case": {"trace_id": "%s k=%d/%d %s" % (rq["id"], rq["fk"], rq["nw"], rq["fcls"]),
                                         "rq": rq, "hl": hl, "kind": b["kind"], "frame": b["frame"], "k": rq["fk"], "nw": rq["nw"],
                                         "fcls": rq["fcls"], "site": site, "model_log": mlog}})
-        # 4. real sockets: the client resets the connection mid-transfer (thorough)
+        # 4. real sockets through the unmodified handler class (its own buffering): client gone before / while
+        traces.extend(c03._pool(_socketpair_family, [0], "default")[0])
+        # 5. real loopback server: the client resets the connection mid-transfer (thorough)
         if t["sockets"]:
             traces.extend(socket_cases(t["sockets"], lists))
     not_injected = [tr["id"] for tr in traces if tr["events"][0]["mark"] < 0 and tr["case"].get("k")]
@@ -227,6 +230,110 @@ def main(chk, replay=None):
         "socket.timeout('timed out') is TimeoutError with args == ('timed out',) and errno None",
         "TLS is the mock SSL socket class of the harness (protocol selection only)",
     ])
+
+
+# ---- real sockets through the UNMODIFIED handler class (both tiers) -------------------------------------
+SOCKETPAIR_CASES = [            # (frame, selector, when the client goes away)
+    ("g", "/big.txt", "before"), ("g", "/d", "before"), ("g", "/nofile", "before"), ("g", "/m.mbox|/MBOX-MESSAGE/1", "before"),
+    ("gp_plus", "/big.txt", "before"), ("gp_info", "/big.txt", "before"), ("gp_plus", "/nofile", "before"),
+    ("h_get", "/d", "before"), ("h_get", "/nofile", "before"), ("w_get", "/d", "before"),
+    ("s", "/big.txt", "before"), ("s", "/nofile", "before"),
+    ("g", "/huge.bin", "while"), ("h_get", "/huge.bin", "while"), ("s", "/huge.bin", "while"),
+]
+
+
+def _socketpair_family(_job):
+    """The real pygopherd.server.GopherRequestHandler, constructed exactly as socketserver does
+    (request socket, client address, server): its own rbufsize / wbufsize, its own setup(), handle()
+    and finish().  The request socket is one end of a socketpair; the client end sends the request and
+    is closed before the handler runs ('before') or after reading a little of a reply too large for
+    the socket buffers ('while').  The server end is a socket.socket subclass that notes the log
+    length when a send first fails (environment, not code under test)."""
+    import gc
+    import socket as S
+    import threading
+    import pygopherd.server
+    from harness import c03_lib as L
+    from harness import world as W
+    w = c03._W
+    w.write("huge.bin", b"0123456789abcdef" * 400000)
+
+    class RecSock(S.socket):
+        marks = None
+
+        def _note(self):
+            if self.marks is not None and not self.marks:
+                self.marks.append(len(w.logbuf))
+
+        def send(self, *a, **k):
+            try:
+                return super().send(*a, **k)
+            except OSError:
+                self._note()
+                raise
+
+        def sendall(self, *a, **k):
+            try:
+                return super().sendall(*a, **k)
+            except OSError:
+                self._note()
+                raise
+
+    out = []
+    for i, (f, sel, when) in enumerate(SOCKETPAIR_CASES):
+        tpl, _tls, tail = FRAMES[f]
+        data = L.concretise(tpl % sel, tail)
+        proto, _raised = L.detect(w, data, False)
+        W.logger.log = w.logbuf.append
+        del w.logbuf[:]
+        gc.collect()
+        before = L.open_fds()
+        a, b = S.socketpair()
+        srv = RecSock(fileno=a.detach())
+        srv.marks = []
+        b.sendall(data)
+        th = None
+        if when == "before":
+            b.close()
+        else:
+            def client(sock=b):
+                try:
+                    sock.recv(2000)
+                finally:
+                    sock.close()
+            th = threading.Thread(target=client, daemon=True)
+            th.start()
+        esc = "none"
+        saved = sys.stderr
+        sys.stderr = open(os.devnull, "w")
+        try:
+            try:
+                pygopherd.server.GopherRequestHandler(srv, W.CLIENT, w.server)        # setup(); handle(); finish()
+            except BaseException as e:      # noqa: left the connection handler (handle() or finish())
+                esc = type(e).__name__
+        finally:
+            sys.stderr.close()
+            sys.stderr = saved
+            srv.close()
+        if th:
+            th.join(10)
+        gc.collect()
+        recs = L.log_records(list(w.logbuf))
+        raw = srv.marks[0] if srv.marks else None
+        mark = sum(1 for r in recs[:raw] if r["ev"] == "log") if raw is not None else -1
+        leaked = L.fd_targets(L.open_fds() - before)
+        rq = {"line": tpl % sel, "tls": False, "wap": False, "hl": c03._HL, "tail": tail, "fk": 0,
+              "fcls": "connection-failure", "nw": 0, "id": "socketpair %s :: %s :: client gone %s" % (f, sel, when)}
+        ev = {"ev": "conn", "role": "socket", "rq": rq, "proto": proto, "frames": [],
+              "log": [{"addr": r["addr"], "proto": r["proto"], "cls": r["cls"], "fam": r["fam"]} for r in recs if r["ev"] == "log"],
+              "esc": esc, "ops": 0, "mark": mark, "nfds": len(leaked), "digest": "", "arts": []}
+        out.append({"id": rq["id"], "init": {"prop": "C20", "hl": c03._HL}, "events": [ev],
+                    "extras": [{"leaked": leaked, "log": list(w.logbuf)[:6], "writes": -1,
+                                "wbufsize": pygopherd.server.GopherRequestHandler.wbufsize}],
+                    "case": {"rq": rq, "hl": c03._HL, "kind": "real socketpair, client gone %s" % when, "frame": f,
+                             "fcls": "connection-failure", "site": "socket", "k": i + 1}})
+    L.remove_artefacts(w.root, c03._KEEP)
+    return out
 
 
 # ---- real loopback sockets: the client resets mid-transfer (thorough tier) ----------------------------
